@@ -178,6 +178,26 @@ func (a *nilAnalyzer) analyze(f *ssa.Function, k int) []nilFinding {
 		work = work[:len(work)-1]
 		take := []bool{true, true}
 		if ifi, ok := b.Instrs[len(b.Instrs)-1].(*ssa.If); ok {
+			// a nil-safe predicate of the receiver (`if e.Enabled()`): its constant answer for a nil receiver decides the branch
+			cond, pol := ifi.Cond, true
+			for {
+				u, isU := cond.(*ssa.UnOp)
+				if !isU || u.Op != token.NOT {
+					break
+				}
+				cond, pol = u.X, !pol
+			}
+			if c, isCall := cond.(*ssa.Call); isCall && !c.Call.IsInvoke() && len(c.Call.Args) > 0 && isNil(c.Call.Args[0]) {
+				if sc := staticCallee(&c.Call); sc != nil && InModule(sc) {
+					if v, known := a.nilConstResult(sc, 0, 0); known {
+						if v == pol {
+							take[1] = false
+						} else {
+							take[0] = false
+						}
+					}
+				}
+			}
 			if bo, ok := ifi.Cond.(*ssa.BinOp); ok && (bo.Op == token.EQL || bo.Op == token.NEQ) {
 				if (isNil(bo.X) && isNilConst(bo.Y)) || (isNil(bo.Y) && isNilConst(bo.X)) {
 					if bo.Op == token.EQL {
@@ -393,4 +413,86 @@ func constIndexGuarded(f *ssa.Function, at ssa.Instruction, x, idx ssa.Value) bo
 		}
 		return false
 	})
+}
+
+// nilConstResult: the constant boolean m returns whenever its parameter k is nil (e.g.
+// `func (e *Event) Enabled() bool { return e != nil && e.level != Disabled }` → false).
+func (a *nilAnalyzer) nilConstResult(m *ssa.Function, k int, depth int) (val, known bool) {
+	if m == nil || m.Blocks == nil || k >= len(m.Params) || depth > 2 || m.Signature.Results().Len() != 1 {
+		return false, false
+	}
+	if b, ok := m.Signature.Results().At(0).Type().Underlying().(*types.Basic); !ok || b.Kind() != types.Bool {
+		return false, false
+	}
+	recv := ssa.Value(m.Params[k])
+	type edge struct{ from, to *ssa.BasicBlock }
+	reach := map[*ssa.BasicBlock]bool{m.Blocks[0]: true}
+	edges := map[edge]bool{}
+	work := []*ssa.BasicBlock{m.Blocks[0]}
+	for len(work) > 0 {
+		b := work[len(work)-1]
+		work = work[:len(work)-1]
+		take := []bool{true, true}
+		if ifi, ok := b.Instrs[len(b.Instrs)-1].(*ssa.If); ok {
+			if bo, ok := ifi.Cond.(*ssa.BinOp); ok && (bo.Op == token.EQL || bo.Op == token.NEQ) {
+				if (stripChange(bo.X) == recv && isNilConst(bo.Y)) || (stripChange(bo.Y) == recv && isNilConst(bo.X)) {
+					if bo.Op == token.EQL {
+						take[1] = false
+					} else {
+						take[0] = false
+					}
+				}
+			}
+		}
+		for si, s := range b.Succs {
+			if si < 2 && !take[si] {
+				continue
+			}
+			edges[edge{b, s}] = true
+			if !reach[s] {
+				reach[s] = true
+				work = append(work, s)
+			}
+		}
+	}
+	have := false
+	okAll := true
+	var eval func(v ssa.Value, d int) (bool, bool)
+	eval = func(v ssa.Value, d int) (bool, bool) {
+		if d > 4 {
+			return false, false
+		}
+		if c, ok := constBool(v); ok {
+			return c, true
+		}
+		if ph, ok := v.(*ssa.Phi); ok {
+			var res bool
+			got := false
+			for i, e := range ph.Edges {
+				if !edges[edge{ph.Block().Preds[i], ph.Block()}] {
+					continue
+				}
+				x, ok := eval(e, d+1)
+				if !ok || (got && x != res) {
+					return false, false
+				}
+				res, got = x, true
+			}
+			return res, got
+		}
+		return false, false
+	}
+	for b := range reach {
+		ret, ok := b.Instrs[len(b.Instrs)-1].(*ssa.Return)
+		if !ok {
+			continue
+		}
+		x, ok := eval(ret.Results[0], 0)
+		if !ok || (have && x != val) {
+			okAll = false
+			continue
+		}
+		val, have = x, true
+	}
+	return val, okAll && have
 }
